@@ -571,7 +571,9 @@ def explore(ctx, focus, kinds, versions, stricts, size):
         for kind in kinds:
             if kind == "zseg" and strict:
                 continue      # a Z segment has no cardinalities to enforce: the strict reference does not apply
-            for version in versions:
+            # (a dict gives each concretisation its own versions: the quick tier uses another version than the library's
+            #  default for two of the three, since a slip may show only where the version is not the default one)
+            for version in (versions.get(kind, ["2.5"]) if isinstance(versions, dict) else versions):
                 chunks = [(kind, version, strict, jobs[k::32], bool(rops), size.get("only", "all")) for k in range(32)]
                 for part, steps, errors in pmap(_replay_chunk, chunks):
                     for e in errors:
@@ -634,7 +636,7 @@ def signature(e, clause):
 
 def run_property(ctx, focus, size_quick, size_thorough, kinds=("seg", "grp", "zseg")):
     size = size_quick if ctx.tier == "quick" else size_thorough
-    versions = ["2.5"] if ctx.tier == "quick" else ["2.5", "2.3", "2.8"]
+    versions = {"seg": ["2.5"], "grp": ["2.6"], "zseg": ["2.3"]} if ctx.tier == "quick" else ["2.5", "2.3", "2.8"]
     failures = explore(ctx, focus, kinds, versions, [False, True], size)
     for e, clause in failures:
         if clause in focus:
